@@ -375,8 +375,8 @@ def _p_produce(r, v):
         rs = r.bytes_("record_set", nullable=False)
         ms = parse_message_set(rs, "record_set")
         for m in ms:
-            want = 1 if v >= 2 else 0
-            if m["magic"] != want:
+            # message format 1 (timestamps) exists from Produce v2 on; v2 still accepts format 0
+            if m["magic"] > (1 if v >= 2 else 0):
                 raise ParseError("Produce v%d carries magic %d message" % (v, m["magic"]))
         return dict(partition=p, record_set=rs, messages=ms)
     topics = _group_tp(r, part)
